@@ -355,6 +355,27 @@ def enforcement_census(repo):
     return fields, ser
 
 
+def serialized_struct(repo, rel, name):
+    """(fields, {field: serialized?}) of a struct that derives its serialized form"""
+    src = load_src(repo, rel)
+    fields, derive, attrs = struct_fields(src, name)
+    if "Serialize" not in derive or "Deserialize" not in derive:
+        raise ExtractError(f"{name} no longer derives Serialize/Deserialize")
+    ser = {f: not re.search(r"serde\s*\([^)]*\b(skip|skip_serializing|skip_deserializing)\b", attrs[f]) for f in fields}
+    return fields, ser
+
+
+def monitor_census(repo):
+    """monitor `State` (the per-channel part of the tracker entry) and `PaymentState` (the values of the invoice maps)"""
+    m_fields, m_ser = serialized_struct(repo, "vls-core/src/monitor.rs", "State")
+    msrc = load_src(repo, "vls-core/src/monitor.rs")
+    _, nfp = fn_item(msrc, r"\bpub\s+fn\s+new_from_persistence\s*\(")
+    # the one skipped field is re-populated by the restore path
+    repop = re.findall(r"state\.lock\(\)\.unwrap\(\)\.(\w+)\s*=", nfp)
+    p_fields, p_ser = serialized_struct(repo, NODE, "PaymentState")
+    return m_fields, m_ser, repop, p_fields, p_ser
+
+
 def channel_census(repo):
     node = load_src(repo, NODE)
     model = load_src(repo, MODEL)
@@ -480,6 +501,7 @@ def extract(repo):
     n_mem, n_ent, n_save, n_load, vc_update = node_census(repo)
     e_fields, e_ser = enforcement_census(repo)
     v_mem, v_ent, v_save, v_load = velocity_census(repo)
+    ms_fields, ms_ser, ms_repop, ps_fields, ps_ser = monitor_census(repo)
     c_mem, s_mem, c_ent, c_save, c_load, s_save, s_load = channel_census(repo)
     t_mem, t_ent, t_save, t_load = tracker_census(repo)
     L = ["/- Field census of the persist conversions (vls-persist/src/model.rs, kvv.rs; vls-core/src/node.rs,",
@@ -508,6 +530,20 @@ def extract(repo):
     for f in e_fields:
         L.append(f"  | .{em[f]} => {'true' if e_ser[f] else 'false'}")
     L.append("")
+    o, msm = lean_enum("MonitorStateF", ms_fields, "fields of the monitor `State` (monitor.rs): the per-listener state inside the tracker entry"); L += o
+    L.append("/-- part of the serialized form (derive(Serialize, Deserialize), no `serde(skip)`) -/")
+    L.append("def monitorStateSerialized : MonitorStateF → Bool")
+    for f in ms_fields:
+        L.append(f"  | .{msm[f]} => {'true' if ms_ser[f] else 'false'}")
+    L.append("")
+    L.append("/-- fields that `ChainMonitorBase::new_from_persistence` assigns explicitly after deserialization -/")
+    L.append("def monitorStateRepopulated : List MonitorStateF := [" + ", ".join("." + msm[f] for f in ms_repop if f in msm) + "]")
+    L.append("")
+    o, psm = lean_enum("PaymentStateF", ps_fields, "fields of `PaymentState` (node.rs): the values of the approved / issued invoice maps"); L += o
+    L.append("def paymentStateSerialized : PaymentStateF → Bool")
+    for f in ps_fields:
+        L.append(f"  | .{psm[f]} => {'true' if ps_ser[f] else 'false'}")
+    L.append("")
     o, cm = lean_enum("ChannelF", c_mem, "fields of `Channel` (channel.rs)"); L += o
     o, sm = lean_enum("StubF", s_mem, "fields of `ChannelStub` (channel.rs)"); L += o
     o, ce = lean_enum("ChannelEntryF", c_ent, "fields of `ChannelEntry` (model.rs)"); L += o
@@ -524,7 +560,8 @@ def extract(repo):
     facts = {
         "persist_census": {
             "node_save": n_save, "node_load": n_load, "velocity_update_spec": [list(x) for x in vc_update],
-            "enforcement_serialized": e_ser,
+            "enforcement_serialized": e_ser, "monitor_state_serialized": ms_ser, "monitor_state_repopulated": ms_repop,
+            "payment_state_serialized": ps_ser,
             "channel_save": c_save, "channel_load": c_load, "stub_save": s_save, "stub_load": s_load,
             "tracker_save": t_save, "tracker_load": t_load,
         }
